@@ -10,6 +10,9 @@ from weave import (Edits, FnSpec, Log, Undecided, generic_attr_edits, closure_un
 
 REPO = os.environ.get('VERIF_REPO', '/repo')
 _cache = {}
+# labels the driver asks to demote (emit as external_body with the contract assumed, reported UNDECIDED) because Verus' front end
+# rejected their current text; set before build()
+FORCE_DEMOTE = {}
 
 
 def source(path, text=None):
@@ -106,7 +109,20 @@ class Module:
     def _emit_fn(self, sf, it, spec, prefix, allow_canary=True):
         name = (spec.rename if spec and spec.rename else it.name)
         label = ('%s::%s%s' % (self.qual, prefix, name)) if self.qual else (prefix + name)
-        text = weave_fn(sf, it, spec, self.unit.log, label)
+        try:
+            if label in FORCE_DEMOTE and spec is not None and spec.mode == 'verify':
+                raise Undecided(FORCE_DEMOTE[label])
+            text = weave_fn(sf, it, spec, self.unit.log, label)
+        except Undecided as e:
+            if spec is None or spec.mode != 'verify':
+                raise
+            # the contract of this function can no longer be woven / checked on the current text (lost anchor, construct outside Verus):
+            # keep the unit alive by emitting it with its pre/postcondition ASSUMED, and report the function as UNDECIDED
+            self.unit.demoted[label] = str(e)
+            spec = FnSpec(spec.name, requires=spec.requires, ensures=spec.ensures, ret=spec.ret, mode='assumed', props=spec.props,
+                          rename=spec.rename, params=spec.params, note='DEMOTED (undecided on the current text): %s' % e)
+            text = weave_fn(sf, it, spec, self.unit.log, label)
+            allow_canary = False
         kind = 'fn'
         if spec is not None and spec.mode in ('assumed', 'assumed_sig'):
             kind = 'assumed'
@@ -393,6 +409,7 @@ class Unit:
     def __init__(self, name):
         self.name = name
         self.modules = []
+        self.demoted = {}
         self.log = Log()
         self.header = ''
         self.prelude = []
